@@ -38,8 +38,9 @@ def mk(pid, tier, replay):
 
 
 def model_walleye(run, tier):
-    cfg = "MC_Walleye_fixed.cfg" if tier == "quick" else "MC_Walleye_fixed_big.cfg"
-    r = vcommon.tlc("Walleye", cfg, workers=8, xmx="8g", timeout=3000)
+    # quick: 3 commands (47 k states); thorough: 5 commands (3.5 M states, safety + liveness, ~4 min)
+    cfg = "MC_Walleye_fixed.cfg" if tier == "quick" else "MC_Walleye_fixed_huge.cfg"
+    r = vcommon.tlc("Walleye", cfg, workers=8 if tier == "quick" else 12, xmx="8g" if tier == "quick" else "24g", timeout=3000)
     if not r["ok"]:
         raise ToolError("Walleye model run failed:\n" + r["out"][-3000:])
     run.add("states", r["distinct"])
